@@ -89,6 +89,13 @@ pub fn cut_points(spec: &CfmSpec, body_len: usize, selectors: &[u16]) -> Vec<usi
             cuts.push((*s as usize * body_len) >> 16);
         }
     }
+    // every point inside the last azimuth segment of the last elevation segment (bounded) and the final bytes:
+    // a cut there is followed by no further read that could notice it
+    if bounds.len() >= 2 {
+        let last_start = bounds[bounds.len() - 2];
+        cuts.extend(last_start.max(body_len.saturating_sub(600))..body_len);
+    }
+    cuts.extend(body_len.saturating_sub(64)..body_len);
     if body_len > 0 {
         cuts.push(body_len - 1);
     }
